@@ -88,6 +88,10 @@ def problem(name, dtype):
         def f(t, y):
             return -2 * t * y * y * 1048576.0
         return f
+    if name == "pair":         # coupled, components of different magnitude: y = (3/(1+t), 1/(1+t), A/(1+t^2)), A = 2^-20 (spec/Accuracy.tla)
+        def f(t, y):
+            return np.stack([-y[0] * y[1], -y[1] * y[1], -2 * t * y[2] * y[2] * 1048576.0])
+        return f
     if name == "nanwall":      # smooth for |t| < 1/2, undefined beyond: no step can be taken across the wall
         def f(t, y):
             return -y if abs(t) < 0.5 else np.nan * y
@@ -212,6 +216,7 @@ def run(sc, detail_rhs=False, keep_system=False):
                 fp = lg.fault_plan
                 fp.n = 0
                 fp.k = op.get("fault")
+                fp.only = op.get("faultSite")
                 fp.exc = None
                 if fp.k is not None:
                     exc_t = op.get("exc", "ValueError")
